@@ -62,7 +62,11 @@ def scenario(job):
             except ref.ParseError as e:
                 ok = False
                 ctx.check(False, "api-versions-request-conforms", "reference parser rejects the ApiVersions request: %s" % e)
-            if mode == "silent":
+            else:
+                # the id the request is registered under (and by which the reply will be matched) is the id in its header
+                ctx.check(q["correlation_id"] == request_id, "header-correlation-id-is-the-registered-id",
+                          "ApiVersions attempt %d: registered under id %r, header carries %r" % (calls["unaware"], request_id, q["correlation_id"]))
+            if mode == "silent" or (mode == "flaky" and calls["unaware"] == 1):
                 return fail(Failure(KafkaUnavailableError("no broker")))
             corr = request_id
             if mode == "error":
@@ -83,7 +87,7 @@ def scenario(job):
             ctx.log("request", key, v)
             row = [r for r in table if r[0] == key]
             ctx.check(v in (0, 2), "version-is-one-the-client-implements", "api %d sent as v%d" % (key, v))
-            if mode == "table":
+            if mode in ("table", "flaky"):
                 ctx.check(bool(row) and row[0][1] <= v <= row[0][2], "version-is-advertised-for-that-api", "api %d sent as v%d, broker advertised %r" % (key, v, row))
             else:
                 ctx.check(v == 0, "fallback-to-version-0-when-discovery-fails", "api %d sent as v%d after failed discovery" % (key, v))
@@ -157,6 +161,7 @@ def jobs(tier):
         {"mode": "table", "permute": True, "drop": True},
         {"mode": "error", "permute": False},
         {"mode": "silent", "permute": False},
+        {"mode": "flaky", "permute": False},  # the first discovery attempt finds no broker, the second is answered
     ]
     q = tier == "quick"
     out += [
@@ -174,6 +179,7 @@ REQUIRED = [
     "fallback-to-version-0-when-discovery-fails",
     "matching-decoder-used-for-the-reply",
     "discovery-retried-three-times",
+    "header-correlation-id-is-the-registered-id",
     "state-machine-requests-conform-on-the-wire",
 ]
 
